@@ -394,17 +394,19 @@ def r19_5(prog, rep, rid="R19.5"):
             c = cfg.cond(b)
             if c is None:
                 continue
-            cs = strip(c)
-            if cs.get("k") == "bin" and cs["op"] in ("<", "<=", ">", ">=") and int_value(strip_casts(cs["r"])) == 0:
-                splits.append((cs["op"], lv(strip_casts(cs["l"])), f.loc(cs.get("line", 0))))
+            for a in cond_atoms(c, True):
+                # canonical atoms: `v > 0` and `0 < v` are both ("<", "0", v)
+                if len(a) == 5 and a[0] in ("<", "<=") and (a[1] == "0" or a[2] == "0"):
+                    v_ = a[2] if a[1] == "0" else a[1]
+                    splits.append(("%s %s" % ("0" if a[1] == "0" else "v", a[0]), v_, f.loc(0)))
         key = "%s/split-agreement" % name
         n += 1
         ops = {s[0] for s in splits}
         if len(splits) == 2 and len(ops) == 1:
-            rep.ok(rid, key, f.loc(f.line), "degrade arm and insertion arm split on `%s 0` alike (%s)" % (splits[0][0], ", ".join(s[1] for s in splits)))
+            rep.ok(rid, key, f.loc(f.line), "degrade arm and insertion arm split by the same comparison with 0 (%s)" % (", ".join(s[1] for s in splits)))
         else:
             rep.fail(rid, key, f.loc(f.line), "the stored single value and the new value are sorted into the positive/negative word by different predicates: %s" % (
-                ", ".join("%s %s 0" % (s[1], s[0]) for s in splits),))
+                ", ".join("%s: %s" % (s[1], s[0].replace("v", s[1]) + (" " + s[1] if s[0].startswith("0") else " 0")) for s in splits),))
     for name, bs in (("ass_bi383", "ass_bs383"), ("ass_bi447", "ass_bs447")):
         f = prog.fn(name)
         cfg = f.cfg
